@@ -232,8 +232,10 @@ def main(argv):
     if not replay:
         ev = core.write_evidence(pid, tier, seed, cov, wall, nviol,
                                  list(getattr(mod, 'ASSUMPTIONS', [])))
+    sys.stderr.write('\n')
+    sys.stderr.flush()
     for ln in lines:
-        print(ln)
+        print(ln, flush=True)
     print(f'[{pid}] tier={tier} seed={seed} theorems={prop["discharged"]}/{prop["obligations"]} '
           f'cases={len(cases)} coq={len(terms)} nontrivial={len(distinct)} bad={len(bad)} '
           f'oracle_fail={len(oracle_fail)} known={sorted(known_seen)} drift={len(drift)} '
